@@ -187,6 +187,20 @@ CHECKS["C08"] = {
     "note": "Trusted: modern_robotics 1.1.1 recursion as the physics reference; rewrite set N1..N16.",
 }
 
+CHECKS["C14"] = {
+    "engine": "sa",
+    "technique": "flow-sensitive may-alias / may-write (effects) analysis with interprocedural summaries and a NumPy view/copy transfer table",
+    "design_ref": "DESIGN.md section 4 C14",
+    "text": ("Decides value semantics for every operand and every later mutation at once, as an effects property of the code: for "
+             "the 160+ functions in the property's scope (operators, inverse, copies, get-accessors of tm/Screw/Wrench/Twist; "
+             "frame-conversion/distance/midpoint/gap-closing/path helpers; Arm and SP constructors; every function of the MR "
+             "port) the set of parameters whose storage may be written is within the documented in-place targets; the payload "
+             "returned by operators/copies/accessors has no origin in an operand (no shared storage); mutable constructor "
+             "defaults never become payload. This is a may-analysis: it can only err towards reporting, and unknown external "
+             "callees are assumed read-only (stated)."),
+    "note": "Trusted: NumPy view/copy semantics table (sa/engine/alias.py); external callees (NumPy/SciPy) do not write their arguments.",
+}
+
 _PENDING = "rule module not yet built in this round (see DESIGN.md section 4 for the planned static rules)"
 for _i in range(1, 21):
     _p = "C%02d" % _i
